@@ -103,6 +103,10 @@ package proxy
 //@ unit proxy_conns props=C05 filter=`proxy\.Proxy\)\.ServeHTTP$`
 //@ func (*ReverseProxy).ServeHTTP
 //@   may_panic
+//@ func createUpstreamRequest
+//@   ensures result0 != nil
+//@ extern net/url.Parse
+//@   ensures result1 == nil ==> result0 != nil
 
 //@ func (Proxy).ServeHTTP
 //@   may_panic
